@@ -154,4 +154,318 @@ theorem decPats_encPats (chn : Nat) (ps : List Pat) (fx : Nat → UInt8 × UInt8
     rw [this]
     cases p; simp_all
 
+/-! ## sample headers -/
+
+theorem decHdr_append {n : Bytes} (hn : n.length = 22) (a0 a1 f v b0 b1 c0 c1 : UInt8) :
+    decHdr (n ++ [a0, a1, f, v, b0, b1, c0, c1]) =
+      { name := n, size := a0.toNat * 256 + a1.toNat, fine := f.toNat, vol := v.toNat,
+        lstart := b0.toNat * 256 + b1.toNat, lsize := c0.toNat * 256 + c1.toNat } := by
+  unfold decHdr
+  have h26 : n.drop 26 = [] := List.drop_of_length_le (by omega)
+  have h28 : n.drop 28 = [] := List.drop_of_length_le (by omega)
+  simp [List.drop_append, hn, List.getD_eq_getElem?_getD, rd16be, h26, h28]
+
+/-- the writer's finetune nibble -/
+def fineNib (ins : Ins) : Nat :=
+  let sub : Sub := ins.subs.headD { sid := 0, vol := 0, pan := 0x80, xpo := 0, fin := 0 }
+  (sub.fin.toNat + (if sub.fin < 0 then 256 - (-sub.fin).toNat else 0)) % 256 / 16
+
+def volOf (ins : Ins) : Nat :=
+  (ins.subs.headD { sid := 0, vol := 0, pan := 0x80, xpo := 0, fin := 0 }).vol
+
+def lstartOf (s : Smp) : Nat := if s.flg &&& FLOOP ≠ 0 then s.lps / 2 else 0
+def lsizeOf (s : Smp) : Nat := if s.flg &&& FLOOP ≠ 0 then (s.lpe - s.lps) / 2 else 0
+
+theorem encHdr_eq (x : Ins) (m : Smp) :
+    encHdr x m = padTo 22 x.name ++
+      [u8 (m.len / 2 / 256), u8 (m.len / 2 % 256), u8 (fineNib x), u8 (volOf x),
+       u8 (lstartOf m / 256), u8 (lstartOf m % 256), u8 (lsizeOf m / 256), u8 (lsizeOf m % 256)] := by
+  simp [encHdr, be16, fineNib, volOf, lstartOf, lsizeOf]
+
+theorem encHdr_length (x : Ins) (m : Smp) : (encHdr x m).length = 30 := by
+  rw [encHdr_eq]; simp [padTo_length]
+
+/-- the raw header the reader sees for slot `(x, m)` -/
+def rawHdr (x : Ins) (m : Smp) : Hdr := decHdr (encHdr x m)
+
+theorem rawHdr_eq (x : Ins) (m : Smp) :
+    rawHdr x m =
+    { name := padTo 22 x.name,
+      size := (m.len / 2 / 256) % 256 * 256 + m.len / 2 % 256 % 256,
+      fine := fineNib x % 256, vol := volOf x % 256,
+      lstart := (lstartOf m / 256) % 256 * 256 + lstartOf m % 256 % 256,
+      lsize := (lsizeOf m / 256) % 256 * 256 + lsizeOf m % 256 % 256 } := by
+  unfold rawHdr
+  rw [encHdr_eq, decHdr_append (padTo_length _ _)]
+  simp only [u8_toNat]
+
+theorem subsOk_cases {i : Nat} {l : List Sub} (h : SubsOk i l) :
+    ∃ sub, l = [sub] ∧ sub.sid = i ∧ sub.vol ≤ 64 ∧ sub.pan = 0x80 ∧ sub.xpo = 0 ∧
+      -128 ≤ sub.fin ∧ sub.fin ≤ 112 ∧ sub.fin % 16 = 0 := by
+  match l, h with
+  | [sub], h => exact ⟨sub, rfl, h⟩
+
+theorem rawHdr_size {i : Nat} {x : Ins} {m : Smp} (h : SlotOk i x m) : (rawHdr x m).size = m.len / 2 := by
+  obtain ⟨-, -, -, -, -, heven, hlt, -, -⟩ := h
+  rw [rawHdr_eq]; simp only; omega
+
+theorem hdrIns_rawHdr {i : Nat} {x : Ins} {m : Smp} (h : SlotOk i x m) : hdrIns i (rawHdr x m) = x := by
+  have hsz := rawHdr_size h
+  obtain ⟨hname, hkm, -, -, -, heven, hlt, -, hcase⟩ := h
+  cases x with
+  | mk name subs keymap =>
+  simp only at hname hkm hcase
+  subst hkm
+  simp only [hdrIns, hsz]
+  rw [rawHdr_eq]
+  simp only [copyAdjust_padTo hname, adjustString_self hname]
+  by_cases hl : m.len = 0
+  · rw [if_pos hl] at hcase
+    simp [hl, hcase.1]
+  · rw [if_neg hl] at hcase
+    obtain ⟨sub, rfl, h1, h2, h3, h4, h5, h6, h7⟩ := subsOk_cases hcase.1
+    rw [if_pos (by omega)]
+    cases sub with
+    | mk sid vol pan xpo fin =>
+    simp only at h1 h2 h3 h4 h5 h6 h7
+    subst h1 h3 h4
+    have hF : fineNib { name := name, subs := [{ sid := sid, vol := vol, pan := 128, xpo := 0, fin := fin }] } =
+        (fin.toNat + (if fin < 0 then 256 - (-fin).toNat else 0)) % 256 / 16 := rfl
+    have hV : volOf { name := name, subs := [{ sid := sid, vol := vol, pan := 128, xpo := 0, fin := fin }] } = vol := rfl
+    rw [hV]
+    generalize fineNib _ = F at hF
+    have hv : vol % 256 = vol := by omega
+    have hf : (if F % 256 * 16 % 256 ≥ 128 then ((F % 256 * 16 % 256 : Nat) : Int) - 256
+        else ((F % 256 * 16 % 256 : Nat) : Int)) = fin := by
+      split <;> split at hF <;> omega
+    simp only [hv, hf]
+
+theorem hdrSmp_noloop (n : Bytes) (size fine vol : Nat) :
+    hdrSmp { name := n, size := size, fine := fine, vol := vol, lstart := 0, lsize := 0 } =
+      { name := [], len := 2 * size, lps := 0, lpe := 0, flg := 0, pcm := [] } := by
+  simp [hdrSmp, loopSanity]
+
+theorem hdrSmp_loop (n : Bytes) (size fine vol lstart lsize : Nat) (h1 : 2 ≤ lsize)
+    (h2 : lstart + lsize ≤ size) :
+    hdrSmp { name := n, size := size, fine := fine, vol := vol, lstart := lstart, lsize := lsize } =
+      { name := [], len := 2 * size, lps := 2 * lstart, lpe := 2 * lstart + 2 * lsize, flg := FLOOP, pcm := [] } := by
+  have a1 : ¬ (2 * lstart + 2 * lsize > 2 * size) := by omega
+  have a2 : lsize > 1 ∧ 2 * lstart + 2 * lsize ≥ 4 := by omega
+  have a3 : 2 * size > 0 := by omega
+  have a4 : ¬ (2 * lstart ≥ 2 * size ∨ 2 * lstart ≥ 2 * lstart + 2 * lsize) := by omega
+  simp only [hdrSmp, if_neg a1, if_pos a2, if_pos a3, loopSanity, if_neg a4]
+  simp [FLOOP, FBIDIR]
+
+theorem fineNib_lt (x : Ins) : fineNib x < 16 := by
+  unfold fineNib; simp only; omega
+
+theorem slot_loop_cases {i : Nat} {x : Ins} {m : Smp} (h : SlotOk i x m) :
+    (lstartOf m = 0 ∧ lsizeOf m = 0 ∧ m.flg = 0 ∧ m.lps = 0 ∧ m.lpe = 0) ∨
+    (lstartOf m = m.lps / 2 ∧ lsizeOf m = (m.lpe - m.lps) / 2 ∧ m.flg = FLOOP ∧
+      m.lps % 2 = 0 ∧ m.lpe % 2 = 0 ∧ m.lps + 4 ≤ m.lpe ∧ m.lpe ≤ m.len) := by
+  obtain ⟨-, -, -, -, -, -, -, -, hcase⟩ := h
+  by_cases hl : m.len = 0
+  · rw [if_pos hl] at hcase
+    obtain ⟨-, h1, h2, h3⟩ := hcase
+    left; simp [lstartOf, lsizeOf, h1, h2, h3]
+  · rw [if_neg hl] at hcase
+    obtain ⟨-, -, hcase⟩ := hcase
+    rcases hcase with ⟨h1, h2, h3⟩ | ⟨h0, h1, h2, h3, h4⟩
+    · left; simp [lstartOf, lsizeOf, h1, h2, h3]
+    · right; simp [lstartOf, lsizeOf, h0, h1, h2, h3, h4, FLOOP]
+
+theorem volOf_le {i : Nat} {x : Ins} {m : Smp} (h : SlotOk i x m) : volOf x ≤ 64 := by
+  obtain ⟨-, -, -, -, -, -, -, -, hcase⟩ := h
+  by_cases hl : m.len = 0
+  · rw [if_pos hl] at hcase
+    simp [volOf, hcase.1]
+  · rw [if_neg hl] at hcase
+    obtain ⟨sub, hs, -, h2, -⟩ := subsOk_cases hcase.1
+    simp [volOf, hs, h2]
+
+theorem split16 {n : Nat} (h : n < 65536) : n / 256 % 256 * 256 + n % 256 % 256 = n := by omega
+
+theorem rawHdr_norm {i : Nat} {x : Ins} {m : Smp} (h : SlotOk i x m) :
+    rawHdr x m =
+    { name := padTo 22 x.name, size := m.len / 2, fine := fineNib x, vol := volOf x,
+      lstart := lstartOf m, lsize := lsizeOf m } := by
+  have hv := volOf_le h
+  have hf := fineNib_lt x
+  have hc := slot_loop_cases h
+  obtain ⟨-, -, -, -, -, heven, hlt, -, -⟩ := h
+  rw [rawHdr_eq]
+  have e1 : m.len / 2 / 256 % 256 * 256 + m.len / 2 % 256 % 256 = m.len / 2 := split16 (by omega)
+  have e2 : fineNib x % 256 = fineNib x := by omega
+  have e3 : volOf x % 256 = volOf x := by omega
+  have b4 : lstartOf m < 65536 := by
+    rcases hc with ⟨h1, -⟩ | ⟨h1, _, _, _, _, _, _⟩ <;> rw [h1] <;> omega
+  have b5 : lsizeOf m < 65536 := by
+    rcases hc with ⟨-, h1, -⟩ | ⟨_, h1, _, _, _, _, _⟩ <;> rw [h1] <;> omega
+  have e4 := split16 b4
+  have e5 := split16 b5
+  rw [e1, e2, e3, e4, e5]
+
+theorem hdrSmp_rawHdr {i : Nat} {x : Ins} {m : Smp} (h : SlotOk i x m) :
+    hdrSmp (rawHdr x m) = { m with pcm := [] } := by
+  rw [rawHdr_norm h]
+  have hc := slot_loop_cases h
+  obtain ⟨-, -, hmn, hsus, hsue, heven, hlt, -, -⟩ := h
+  cases m with
+  | mk name len lps lpe flg sus sue pcm =>
+  simp only at hmn hsus hsue heven hlt hc
+  subst hmn hsus hsue
+  have e : 2 * (len / 2) = len := by omega
+  rcases hc with ⟨h1, h2, rfl, rfl, rfl⟩ | ⟨h1, h2, rfl, h3, h4, h5, h6⟩
+  · simp only [h1, h2, hdrSmp_noloop, e]
+  · simp only [h1, h2]
+    rw [hdrSmp_loop _ _ _ _ _ _ (by omega) (by omega)]
+    have e1 : 2 * (lps / 2) = lps := by omega
+    have e2 : lps + 2 * ((lpe - lps) / 2) = lpe := by omega
+    simp only [e, e1, e2]
+
+/-! ## the 31 slots -/
+
+theorem slotsOk_cons {i : Nat} {x : Ins} {xs : List Ins} {m : Smp} {ms : List Smp} :
+    SlotsOk i (x :: xs) (m :: ms) ↔ SlotOk i x m ∧ SlotsOk (i + 1) xs ms := by
+  simp [SlotsOk]
+
+theorem slotsOk_length {i : Nat} {xs : List Ins} {ms : List Smp} (h : SlotsOk i xs ms) :
+    xs.length = ms.length := by
+  induction xs generalizing i ms with
+  | nil => cases ms with
+    | nil => rfl
+    | cons m ms => simp [SlotsOk] at h
+  | cons x xs ih => cases ms with
+    | nil => simp [SlotsOk] at h
+    | cons m ms => simp [ih (slotsOk_cons.1 h).2]
+
+theorem encHdrs_length {xs : List Ins} {ms : List Smp} (h : xs.length = ms.length) :
+    (encHdrs xs ms).length = 30 * xs.length := by
+  induction xs generalizing ms with
+  | nil => simp [encHdrs]
+  | cons x xs ih => cases ms with
+    | nil => simp at h
+    | cons m ms =>
+      simp only [encHdrs, List.length_append, encHdr_length, List.length_cons]
+      rw [ih (by simpa using h)]; omega
+
+theorem decodeN_encHdrs {xs : List Ins} {ms : List Smp} (rest : Bytes) (h : xs.length = ms.length) :
+    decodeN 30 decHdr xs.length (encHdrs xs ms ++ rest) = List.zipWith rawHdr xs ms := by
+  induction xs generalizing ms with
+  | nil => simp [decodeN]
+  | cons x xs ih => cases ms with
+    | nil => simp at h
+    | cons m ms =>
+      simp only [encHdrs, List.length_cons, decodeN, List.append_assoc, List.zipWith_cons_cons]
+      rw [List.take_left' (encHdr_length _ _), List.drop_left' (encHdr_length _ _), ih (by simpa using h)]
+      rfl
+
+theorem zipWith_hdrIns {i : Nat} {xs : List Ins} {ms : List Smp} (h : SlotsOk i xs ms) :
+    List.zipWith hdrIns (List.range' i xs.length) (List.zipWith rawHdr xs ms) = xs := by
+  induction xs generalizing i ms with
+  | nil => simp
+  | cons x xs ih => cases ms with
+    | nil => simp [SlotsOk] at h
+    | cons m ms =>
+      obtain ⟨h1, h2⟩ := slotsOk_cons.1 h
+      simp only [List.length_cons, List.range'_succ, List.zipWith_cons_cons, hdrIns_rawHdr h1, ih h2]
+
+theorem slots_forall {i : Nat} {xs : List Ins} {ms : List Smp} (h : SlotsOk i xs ms)
+    (P : Ins → Smp → Prop) (hP : ∀ i x m, SlotOk i x m → P x m) :
+    ∀ p ∈ List.zip xs ms, P p.1 p.2 := by
+  induction xs generalizing i ms with
+  | nil => simp
+  | cons x xs ih => cases ms with
+    | nil => simp
+    | cons m ms =>
+      obtain ⟨h1, h2⟩ := slotsOk_cons.1 h
+      intro p hp
+      simp only [List.zip_cons_cons, List.mem_cons] at hp
+      rcases hp with rfl | hp
+      · exact hP _ _ _ h1
+      · exact ih h2 p hp
+
+theorem map_hdrSmp {i : Nat} {xs : List Ins} {ms : List Smp} (h : SlotsOk i xs ms) :
+    (List.zipWith rawHdr xs ms).map hdrSmp = ms.map (fun m => { m with pcm := [] }) := by
+  induction xs generalizing i ms with
+  | nil => cases ms with
+    | nil => rfl
+    | cons m ms => simp [SlotsOk] at h
+  | cons x xs ih => cases ms with
+    | nil => simp [SlotsOk] at h
+    | cons m ms =>
+      obtain ⟨h1, h2⟩ := slotsOk_cons.1 h
+      simp only [List.zipWith_cons_cons, List.map_cons, hdrSmp_rawHdr h1, ih h2]
+
+theorem map_size {i : Nat} {xs : List Ins} {ms : List Smp} (h : SlotsOk i xs ms) :
+    (List.zipWith rawHdr xs ms).map (fun h => 2 * h.size) = ms.map (·.len) := by
+  induction xs generalizing i ms with
+  | nil => cases ms with
+    | nil => rfl
+    | cons m ms => simp [SlotsOk] at h
+  | cons x xs ih => cases ms with
+    | nil => simp [SlotsOk] at h
+    | cons m ms =>
+      obtain ⟨h1, h2⟩ := slotsOk_cons.1 h
+      have : 2 * (m.len / 2) = m.len := by have := h1.2.2.2.2.2.1; omega
+      simp only [List.zipWith_cons_cons, List.map_cons, rawHdr_size h1, ih h2, this]
+
+theorem obsLoop_self {i : Nat} {x : Ins} {m : Smp} (h : SlotOk i x m) : obsLoop m = m := by
+  have hc := slot_loop_cases h
+  obtain ⟨-, -, -, hsus, hsue, -, -, -, -⟩ := h
+  cases m with
+  | mk name len lps lpe flg sus sue pcm =>
+  simp only at hsus hsue hc
+  subst hsus hsue
+  rcases hc with ⟨-, -, rfl, rfl, rfl⟩ | ⟨-, -, rfl, -⟩ <;> simp [obsLoop, FLOOP, FSLOOP]
+
+theorem slots_mem {i : Nat} {xs : List Ins} {ms : List Smp} (h : SlotsOk i xs ms) :
+    ∀ m ∈ ms, ∃ j x, SlotOk j x m := by
+  induction xs generalizing i ms with
+  | nil => cases ms with
+    | nil => simp
+    | cons m ms => simp [SlotsOk] at h
+  | cons x xs ih => cases ms with
+    | nil => simp [SlotsOk] at h
+    | cons m ms =>
+      obtain ⟨h1, h2⟩ := slotsOk_cons.1 h
+      intro m' hm'
+      simp only [List.mem_cons] at hm'
+      rcases hm' with rfl | hm'
+      · exact ⟨_, _, h1⟩
+      · exact ih h2 m' hm'
+
+/-! ## sample bodies -/
+
+/-- no sample body, as it lies in the file (followed by the later bodies), begins with "ADPCM" -/
+def NoAdpcm : List Smp → Prop
+  | [] => True
+  | m :: ms => (m.len ≠ 0 → ((m :: ms).flatMap (·.pcm)).take 5 ≠ adpcmTag) ∧ NoAdpcm ms
+
+theorem decSmps_flat (ms : List Smp) (h1 : ∀ m ∈ ms, m.pcm.length = m.len) (h2 : NoAdpcm ms) :
+    decSmps (ms.map fun m => { m with pcm := [] }) (ms.flatMap (·.pcm)) = some ms := by
+  induction ms with
+  | nil => rfl
+  | cons m ms ih =>
+    obtain ⟨ha, hb⟩ := h2
+    have hl := h1 m (by simp)
+    have ih := ih (fun m hm => h1 m (by simp [hm])) hb
+    simp only [List.map_cons, List.flatMap_cons, decSmps]
+    by_cases hz : m.len = 0
+    · have hp : m.pcm = [] := List.eq_nil_of_length_eq_zero (by omega)
+      rw [if_pos hz, hp, List.nil_append, ih]
+      cases m; simp_all
+    · rw [if_neg hz, if_neg (by simpa using ha hz), takeN_append _ hl]
+      simp only [ih, Option.map_some]
+
+/-! ## magic -/
+
+theorem magic_table : ∀ kind ∈ List.range 4, ∀ chn ∈ List.range 33, 1 ≤ chn →
+    (magicFor kind chn).length = 4 ∧
+    (magicFor kind chn = str "M.K." → chn = 4) ∧
+    ∃ det san, magicInfo (magicFor kind chn) =
+        some { chn := chn, detected := det, digital := false, sanity := san } ∧
+      (det = false → san = true → kind = 0 ∧ chn = 4) := by
+  decide +kernel
+
 end Xmp.Fmt.Mod
